@@ -495,12 +495,39 @@ func c14Run(ci any) Result {
 		}
 		// whatever the length: the handler's reads are the underlying reader's answers, byte for byte,
 		// only the error of the reads past the limit is replaced
-		if len(sv.seen) != len(sv.log) {
-			fail(i, fmt.Sprintf("the handler made %d reads but the request's own body reader served %d", len(sv.seen), len(sv.log)))
+		// (the property promises delivery "unchanged" for bodies of at most L bytes; for a longer body it fixes what happens up
+		//  to the read that reports the 413 error — what later reads of a handler that carries on return is left open: they may
+		//  keep handing out the reader's answers with the error, or answer nothing more)
+		first413 := -1
+		for k, sn := range sv.seen {
+			if sn.err == 3 {
+				first413 = k
+				break
+			}
+		}
+		if int64(realLen) <= limit || first413 < 0 {
+			if len(sv.seen) != len(sv.log) {
+				fail(i, fmt.Sprintf("the handler made %d reads but the request's own body reader served %d", len(sv.seen), len(sv.log)))
+			} else {
+				for k := range sv.seen {
+					if string(sv.seen[k].data) != string(sv.log[k].data) {
+						fail(i, fmt.Sprintf("bytes altered at read %d", k))
+					}
+				}
+			}
 		} else {
-			for k := range sv.seen {
-				if string(sv.seen[k].data) != string(sv.log[k].data) {
-					fail(i, fmt.Sprintf("bytes altered at read %d", k))
+			if len(sv.log) < first413+1 {
+				fail(i, fmt.Sprintf("the handler made %d reads up to the 413 error but the request's own body reader served %d", first413+1, len(sv.log)))
+			} else {
+				for k := 0; k <= first413; k++ {
+					if string(sv.seen[k].data) != string(sv.log[k].data) {
+						fail(i, fmt.Sprintf("bytes altered at read %d", k))
+					}
+				}
+			}
+			for k := first413 + 1; k < len(sv.seen); k++ {
+				if len(sv.seen[k].data) > 0 && sv.seen[k].err != 3 {
+					fail(i, fmt.Sprintf("read %d, after the 413 error, handed out %d more bytes without that error", k, len(sv.seen[k].data)))
 				}
 			}
 		}
@@ -857,6 +884,7 @@ func init() {
 		Gen:            c14Gen,
 		Run:            c14Run,
 		Shrink:         c14Shrink,
+		Tolerable:      c14Tolerable,
 		Correspondence: "C14.serveAllN (lean/EchoModel/C14.lean; = serveAll without a route-level instance, serveAllN_none) vs middleware.BodyLimit + limitedReader.Read",
 	})
 }
